@@ -24,7 +24,10 @@ RULE = ("one case = one wrapper instance (class, selector/axis/shape/bounds/peri
         "the recording callable) + 6..40 hostile argument points (+-0, 1e-150..1e100, tiny negatives, exact multiples "
         "of the period +-1 ulp, atan2 branch cut, axis points, clamp bounds +-1 ulp), or one sampler call (function, "
         "range/points/grid, counts 1..17, input container kind); families are drawn with fixed weights so that every "
-        "class/function is driven; a case is non-trivial when at least one received-argument, returned-value, "
+        "class/function is driven; optional arguments (each clamp bound omitted / explicit +-inf / finite, each axis "
+        "periodic or period 0) are drawn independently in random cases and ALL their subsets are enumerated in the "
+        "fixed cases (4^n ClampInput, 3^2 ClampOutput, 2^n periodic, 27 Swizzle shapes, every Slice axis spelling); "
+        "a case is non-trivial when at least one received-argument, returned-value, "
         "mask or sampler-entry comparison was evaluated; distinct = distinct expanded case descriptors")
 LEVEL_TEXT = ("Exploration by runtime monitoring with an argument recorder: the property quantifies over all finite "
               "arguments and all wrapped functions, which no finite run exhausts; each generated call of the real "
@@ -255,6 +258,32 @@ def _cyl_point(rng):
         return [-m, _sign(rng) * m * float(10 ** rng.uniform(-300, -10)), z], "near-branch-cut:" + c
     (mx, cx), (my, cy) = mag(), mag()
     return [_sign(rng) * mx, _sign(rng) * my, z], "mixed:" + "+".join(sorted({cx, cy}))
+
+
+def _opt_bound(rng, finite, inf_token):
+    """an optional bound: None (argument omitted, default), the default infinity passed explicitly, or a finite value"""
+    k = rng.random()
+    return None if k < 0.35 else (inf_token if k < 0.45 else finite)
+
+
+def _bnum(b, default):
+    """numeric value of an encoded optional bound (None / "inf" / "-inf" / number)"""
+    if b is None:
+        return default
+    if isinstance(b, str):
+        return math.inf if b == "inf" else -math.inf
+    return float(b)
+
+
+def _subset_desc(flags, what):
+    """'un<what>' / 'all-<what>' / 'only-xz-<what>' for a tuple of per-axis booleans"""
+    if len(flags) == 1:
+        return what if flags[0] else "un" + what
+    if not any(flags):
+        return "un" + what
+    if all(flags):
+        return "all-" + what
+    return "only-" + "".join(a for a, f in zip("xyz", flags) if f) + "-" + what
 
 
 def _axis_sel(rng, nd):
@@ -507,6 +536,18 @@ def _gen_named(rng, name):
         case["f"] = _coefs(rng, nd)
         case["g"] = _coefs(rng, 1)
         case["pts"], case["cls"] = _points(rng, nd, npt)
+        if rng.random() < 0.4:
+            # hostile class "inner field exactly zero": f(0,..,0) = c0 = 0, evaluated first on the fresh object, and repeated
+            case["f"][0] = 0.0
+            z = [[0.0, -0.0][int(rng.integers(2))] for _ in range(nd)]
+            k = int(rng.integers(1, 4))
+            case["pts"] = [list(z) for _ in range(k)] + case["pts"] + [list(z)]
+            case["cls"] = ["inner-value-zero"] * k + case["cls"] + ["inner-value-zero"]
+        if rng.random() < 0.3:
+            # repeated points (same inner value twice in a row)
+            i = int(rng.integers(len(case["pts"])))
+            case["pts"].insert(i, list(case["pts"][i]))
+            case["cls"].insert(i, case["cls"][i])
     elif name == "Swizzle2D":
         case["f"] = _coefs(rng, 2)
         case["pts"], case["cls"] = _points(rng, 2, npt)
@@ -530,27 +571,35 @@ def _gen_named(rng, name):
     elif name in CLAMP_IN:
         nd = _NDIM[name]
         case["f"] = _coefs(rng, nd)
+        # every bound independently: left at its default (None), passed explicitly as -inf/+inf, or finite;
+        # so bounds on any subset of the axes (incl. none, one-sided) are sampled
         bounds = []
         for _ in range(nd):
             a, b = _hostile(rng)[0], _hostile(rng)[0]
             lo, hi = min(a, b), max(a, b)
             if not lo < hi:
                 hi = 2.0 * abs(lo) + 1.0
-            k = int(rng.integers(5))
-            bounds.append([None if k == 0 else lo, None if k == 1 else hi])
+            bounds.append([_opt_bound(rng, lo, "-inf"), _opt_bound(rng, hi, "inf")])
         case["bounds"] = bounds
         pts, cl = [], []
         for _ in range(npt):
             p, c = [], []
             for lo, hi in bounds:
+                lo, hi = _bnum(lo, -math.inf), _bnum(hi, math.inf)
                 k = int(rng.integers(6))
-                cand = [b for b in (lo, hi) if b is not None]
+                cand = [t for t in (lo, hi) if math.isfinite(t)]
                 if k <= 1 and cand:
                     p.append(_nudge(rng, cand[int(rng.integers(len(cand)))]))
                     c.append("bound+-ulp")
-                elif k == 2 and lo is not None and hi is not None:
+                elif k == 2 and len(cand) == 2:
                     p.append(float(lo + (hi - lo) * rng.uniform(0, 1)))
                     c.append("inside")
+                elif k == 3 and cand:
+                    # beyond a finite bound
+                    t = cand[int(rng.integers(len(cand)))]
+                    d = float(10 ** rng.uniform(-3, 3)) * max(abs(t), 1e-150)
+                    p.append(t - d if t == lo else t + d)
+                    c.append("beyond-bound")
                 else:
                     v, cc = _hostile(rng)
                     p.append(v)
@@ -567,17 +616,14 @@ def _gen_named(rng, name):
         hi = c[0] + float(rng.uniform(0, 1)) * S
         if not lo < hi:
             hi = lo + 1.0
-        k = int(rng.integers(5))
-        case["bounds"] = [None if k == 0 else lo, None if k == 1 else hi]
+        case["bounds"] = [_opt_bound(rng, lo, "-inf"), _opt_bound(rng, hi, "inf")]
         case["pts"], case["cls"] = _points(rng, nd, npt)
     elif name in SCALAR_PERIODIC or name in VECTOR_PERIODIC:
         nd = _NDIM[name]
         vec = name.startswith("Vector")
         case["f"] = _coefs(rng, nd, vec)
-        while True:
-            periods = [_period(rng, nd > 1) for _ in range(nd)]
-            if any(p > 0 for p in periods):
-                break
+        # any subset of the axes periodic (period 0 = not periodic; 1-D requires period > 0)
+        periods = [0.0 if (nd > 1 and rng.random() < 0.35) else _period(rng, False) for _ in range(nd)]
         case["periods"] = periods
         pts, cl = [], []
         for _ in range(npt):
@@ -667,21 +713,47 @@ def fixed_cases(tier):
     for nm, f in (("AxisymmetricMapper", f2), ("VectorAxisymmetricMapper", v2), ("CylindricalTransform", f3),
                   ("VectorCylindricalTransform", v3)):
         out.append({"w": nm, "f": f, "pts": cyl, "cls": ["fixed"] * len(cyl)})
-    # clamps
-    cp = [[-1.0], [0.0], [-0.0], [1.0], [2.0], [1.0000000000000002], [0.9999999999999999], [1e100], [-1e100], [-5e-324]]
-    out.append({"w": "ClampInput1D", "f": f1, "bounds": [[0.0, 1.0]], "pts": cp, "cls": ["fixed"] * len(cp)})
-    out.append({"w": "ClampInput1D", "f": f1, "bounds": [[None, 1.0]], "pts": cp, "cls": ["fixed"] * len(cp)})
-    out.append({"w": "ClampInput1D", "f": f1, "bounds": [[0.0, None]], "pts": cp, "cls": ["fixed"] * len(cp)})
-    out.append({"w": "ClampInput1D", "f": f1, "bounds": [[None, None]], "pts": cp, "cls": ["fixed"] * len(cp)})
-    out.append({"w": "ClampOutput1D", "f": f1, "bounds": [0.0, 1.0], "pts": cp, "cls": ["fixed"] * len(cp)})
-    out.append({"w": "ClampOutput1D", "f": f1, "bounds": [None, 0.3], "pts": cp, "cls": ["fixed"] * len(cp)})
+    # clamps: ALL subsets of the optional bounds (each bound omitted / finite), plus every bound passed explicitly as +-inf
     c3 = [[-1.0, 5.0, 0.5], [0.5, 0.5, 0.5], [2.0, -2.0, 1e100], [0.0, 1.0, -0.0]]
-    out.append({"w": "ClampInput3D", "f": f3, "bounds": [[0.0, 1.0], [-1.0, None], [None, 0.25]], "pts": c3, "cls": ["fixed"] * 4})
-    out.append({"w": "ClampInput2D", "f": f2, "bounds": [[0.0, 1.0], [2.0, 3.0]], "pts": [p[:2] for p in c3], "cls": ["fixed"] * 4})
-    out.append({"w": "ClampOutput3D", "f": f3, "bounds": [-0.5, 0.9], "pts": c3, "cls": ["fixed"] * 4})
-    out.append({"w": "ClampOutput2D", "f": f2, "bounds": [0.0, None], "pts": [p[:2] for p in c3], "cls": ["fixed"] * 4})
+    fin = [[-0.5, 0.75], [-1.25, 0.5], [0.25, 1.5]]
+    probe = [-1e100, -2.0, -0.5, -0.0, 0.3, 0.75, 1.0000000000000002, 3.0, 1e100]
+    for nd, (nm, fc) in enumerate((("ClampInput1D", f1), ("ClampInput2D", f2), ("ClampInput3D", f3)), start=1):
+        grid = [[-2.0, 0.3, 3.0]] * nd
+        pts = [list(t) for t in np.array(np.meshgrid(*grid, indexing="ij")).reshape(nd, -1).T.tolist()]
+        pts += [[v] * nd for v in probe]
+        variants = []
+        for mask in range(4 ** nd):                      # bit 2a: lower bound of axis a present, bit 2a+1: upper bound
+            variants.append([[fin[a][0] if mask >> (2 * a) & 1 else None, fin[a][1] if mask >> (2 * a + 1) & 1 else None]
+                             for a in range(nd)])
+        for a in range(nd):                              # explicit infinities, alone and next to finite bounds elsewhere
+            for others in (None, "fin"):
+                for lo, hi in (("-inf", "inf"), ("-inf", fin[a][1]), (fin[a][0], "inf"), ("-inf", None), (None, "inf")):
+                    v = [[fin[b][0], fin[b][1]] if others else [None, None] for b in range(nd)]
+                    v[a] = [lo, hi]
+                    variants.append(v)
+        variants.append([["-inf", "inf"]] * nd)
+        for v in variants:
+            out.append({"w": nm, "f": fc, "bounds": v, "pts": pts, "cls": ["fixed"] * len(pts)})
+    for nd, (nm, fc) in enumerate((("ClampOutput1D", f1), ("ClampOutput2D", f2), ("ClampOutput3D", f3)), start=1):
+        pts = [[v] * nd for v in probe] + [p[:nd] for p in c3]
+        for lo in (None, "-inf", -0.5):
+            for hi in (None, "inf", 0.9):
+                out.append({"w": nm, "f": fc, "bounds": [lo, hi], "pts": pts, "cls": ["fixed"] * len(pts)})
+    # periodic transforms: ALL subsets of periodic axes (period 0 = not periodic), scalar and vector
+    pp = [-1e-20, -5e-324, -0.0, 0.0, 0.5, 1.0, -1.0, -4.0, 2.5, -2.5, 360.0, -370.0, 1e15, -1e15, 0.9999999999999999]
+    for nd, names, fs in ((2, ("PeriodicTransform2D", "VectorPeriodicTransform2D"), (f2, v2)),
+                          (3, ("PeriodicTransform3D", "VectorPeriodicTransform3D"), (f3, v3))):
+        per = [1.0, 360.0, 2.0][:nd]
+        pts = [[v] * nd for v in pp] + [[pp[(i + 3 * a) % len(pp)] for a in range(nd)] for i in range(len(pp))]
+        for mask in range(2 ** nd):
+            periods = [per[a] if mask >> a & 1 else 0.0 for a in range(nd)]
+            for nm, fc in zip(names, fs):
+                out.append({"w": nm, "f": fc, "periods": periods, "pts": pts, "cls": ["fixed"] * len(pts)})
     out.append({"w": "IsoMapper2D", "f": f2, "g": f1, "pts": [p[:2] for p in c3], "cls": ["fixed"] * 4})
     out.append({"w": "IsoMapper3D", "f": f3, "g": f1, "pts": c3, "cls": ["fixed"] * 4})
+    z2, z3 = [0.0] + f2[1:], [0.0] + f3[1:]      # inner field exactly 0 at the origin, evaluated first / repeated
+    out.append({"w": "IsoMapper2D", "f": z2, "g": f1, "pts": [[0.0, 0.0], [-0.0, 0.0], [1.0, 2.0], [1.0, 2.0], [0.0, -0.0]], "cls": ["fixed"] * 5})
+    out.append({"w": "IsoMapper3D", "f": z3, "g": f1, "pts": [[0.0, 0.0, 0.0], [1.0, 2.0, 3.0], [1.0, 2.0, 3.0], [-0.0, 0.0, 0.0]], "cls": ["fixed"] * 4})
     # polygons: square both orientations (query on the internal diagonal), L, U, collinear vertex
     sq = [[0.0, 0.0], [2.0, 0.0], [2.0, 2.0], [0.0, 2.0]]
     q = [[1.0, 1.0], [0.5, 0.5], [1.5, 0.5], [0.5, 1.5], [-0.5, 1.0], [2.5, 1.0], [1.0, 2.5], [1.0, -0.5], [3.0, 3.0], [0.25, 1.75]]
@@ -742,14 +814,6 @@ def _same(got, want):
     return len(got) == len(want) and all(g == w for g, w in zip(got, want))
 
 
-def _clampf(x, lo, hi):
-    if lo is not None and x < lo:
-        return lo
-    if hi is not None and x > hi:
-        return hi
-    return x
-
-
 def _vec(v):
     return (v.x, v.y, v.z)
 
@@ -798,9 +862,11 @@ def _check_received(ctx, name, rec, want, x, tag=""):
     """pass-through arguments: every received tuple must equal the mapped one (value equality of doubles)"""
     key = "%s:received-args%s" % (name, tag)
     if not rec.calls:
-        ctx.mon("received_exact")
-        ctx.viol(key, "%s did not call the wrapped function" % name, x=x)
-        return False
+        # the property constrains the returned value, not the number of calls (a memoising wrapper is allowed):
+        # judge by value only, against the recorder's pure value at the mapped argument
+        ctx.skip("wrapped function not called for this evaluation: judged by the returned value only")
+        rec.calls.append((tuple(want), rec.value(tuple(want))))
+        return True
     ok = True
     for args, _ in rec.calls:
         ctx.mon("received_exact", len(want))
@@ -811,12 +877,33 @@ def _check_received(ctx, name, rec, want, x, tag=""):
     return ok
 
 
-def _check_value(ctx, name, got, want, x, what="returned value differs from the wrapped function's return value"):
+def _check_received_axes(ctx, name, rec, want, x, desc, **detail):
+    """like _check_received, but judged per axis with the axis and the selected subset of optional arguments in the key"""
+    if not rec.calls:
+        ctx.skip("wrapped function not called for this evaluation: judged by the returned value only")
+        rec.calls.append((tuple(want), rec.value(tuple(want))))
+        return True
+    ok = True
+    for args, _ in rec.calls:
+        if len(args) != len(want):
+            ctx.viol("%s:received-args:%s" % (name, desc), "wrong number of arguments received", got=list(args), x=x)
+            return False
+        for ax, (g, w) in enumerate(zip(args, want)):
+            ctx.mon("received_exact")
+            if not (g == w):
+                ctx.viol("%s:received-args:%s:%s" % (name, "xyz"[ax], desc),
+                         "%s passed %s=%r to the wrapped function, the mapped argument is %r" % (name, "xyz"[ax], g, w),
+                         x=x, got=list(args), want=list(want), **detail)
+                ok = False
+    return ok
+
+
+def _check_value(ctx, name, got, want, x, what="returned value differs from the wrapped function's return value", tag=""):
     ctx.mon("value_exact", len(want) if isinstance(want, tuple) else 1)
     g = got if isinstance(got, tuple) else (got,)
     w = want if isinstance(want, tuple) else (want,)
     if not _same(g, w):
-        ctx.viol("%s:value" % name, "%s: %s" % (name, what), x=x, got=list(g), want=list(w))
+        ctx.viol("%s:value%s" % (name, tag), "%s: %s" % (name, what), x=x, got=list(g), want=list(w))
         return False
     return True
 
@@ -846,20 +933,28 @@ def _run_wrapper(case, ctx):
         kw = {}
         for ax, (lo, hi) in zip("xyz", case["bounds"]):
             if lo is not None:
-                kw[ax + "min"] = lo
+                kw[ax + "min"] = _bnum(lo, -math.inf)
             if hi is not None:
-                kw[ax + "max"] = hi
+                kw[ax + "max"] = _bnum(hi, math.inf)
         w = cls(f, **kw)
+        nbounds = [(_bnum(lo, -math.inf), _bnum(hi, math.inf)) for lo, hi in case["bounds"]]
+        bdesc = _subset_desc(tuple(math.isfinite(lo) or math.isfinite(hi) for lo, hi in nbounds), "bounded")
+        ctx.cls("%s:%s" % (name, bdesc))
     elif name in CLAMP_OUT:
         kw = {}
         lo, hi = case["bounds"]
         if lo is not None:
-            kw["min"] = lo
+            kw["min"] = _bnum(lo, -math.inf)
         if hi is not None:
-            kw["max"] = hi
+            kw["max"] = _bnum(hi, math.inf)
         w = cls(f, **kw)
+        nbounds = (_bnum(lo, -math.inf), _bnum(hi, math.inf))
+        bdesc = {(False, False): "unbounded", (True, False): "min-only", (False, True): "max-only",
+                 (True, True): "min-and-max"}[(math.isfinite(nbounds[0]), math.isfinite(nbounds[1]))]
+        ctx.cls("%s:%s" % (name, bdesc))
     else:
         w = cls(f, *case["periods"])
+        ctx.cls("%s:%s" % (name, _subset_desc(tuple(p > 0 for p in case["periods"]), "periodic")))
 
     for x in pts:
         x = [float(a) for a in x]
@@ -896,14 +991,13 @@ def _run_wrapper(case, ctx):
             if _check_received(ctx, name, f, tuple(want), x, ":axis%d" % a):
                 _check_value(ctx, name, res, f.calls[-1][1], x)
         elif name in CLAMP_IN:
-            want = tuple(_clampf(a, lo, hi) for a, (lo, hi) in zip(x, case["bounds"]))
-            if _check_received(ctx, name, f, want, x):
+            want = tuple(min(max(a, lo), hi) for a, (lo, hi) in zip(x, nbounds))
+            if _check_received_axes(ctx, name, f, want, x, bdesc, bounds=case["bounds"]):
                 _check_value(ctx, name, res, f.calls[-1][1], x)
         elif name in CLAMP_OUT:
             if _check_received(ctx, name, f, tuple(x), x):
-                lo, hi = case["bounds"]
-                _check_value(ctx, name, res, _clampf(f.calls[-1][1], lo, hi), x,
-                             "returned value is not the wrapped function's value clamped to [min, max]")
+                _check_value(ctx, name, res, min(max(f.calls[-1][1], nbounds[0]), nbounds[1]), x,
+                             "returned value is not the wrapped function's value clamped to [min, max]", tag=":" + bdesc)
         elif name in CYL:
             _judge_cyl(ctx, name, f, res, x, vec)
         else:
@@ -994,12 +1088,13 @@ def _judge_periodic(ctx, name, f, res, x, periods, vec):
         ctx.viol("%s:received-args" % name, "%s did not call the wrapped function" % name, x=x)
         return
     ok = True
+    pdesc = _subset_desc(tuple(p > 0 for p in periods), "periodic")
     for args, _ in f.calls:
         if len(args) != len(periods):
             ctx.viol("%s:received-args" % name, "wrong number of arguments received", got=list(args), x=x)
             return
         for ax, (a, xi, p) in enumerate(zip(args, x, periods)):
-            axn = "xyz"[ax]
+            axn = "xyz"[ax] + ":" + pdesc
             if p == 0.0:
                 ctx.mon("received_exact")
                 if not (a == xi):
@@ -1016,7 +1111,7 @@ def _judge_periodic(ctx, name, f, res, x, periods, vec):
                     ctx.viol("periodic:remainder-rounds-up-to-period",
                              "inner argument equals the period (outside [0, period)): fmod(x, p) + p rounds up to p for a "
                              "negative x whose remainder is within 1 ulp of the period",
-                             wrapper=name, axis=axn, x=x, period=p, got=a)
+                             wrapper=name, axis=axn, x=x, period=p, periods=list(periods), got=a)
                 else:
                     ctx.viol("periodic:arg-outside-[0,period):%s.%s" % (name, axn),
                              "inner argument outside [0, period)", x=x, period=p, got=a)
